@@ -213,4 +213,22 @@ CHECKS = {
         "quick": [T("TestC10State", 6, 250, steps=30), T("TestC10Roots", 2, 3000, steps=30)],
         "thorough": [T("TestC10State", 8, 8000, steps=30, timeout=3000), T("TestC10Roots", 4, 100000, steps=30, timeout=3000), F("FuzzC10State", "240s")],
     },
+    "C11": {
+        "level": "fault_enumeration",
+        "rule": ("rapid draws a history (fresh node: genesis plus 0-11 blocks so that heights below and above the journal-"
+                 "pruning threshold 10 occur; or the std world at height 18 plus 0-3 blocks; blocks of 0-5 transfers / Store "
+                 "calls / failing calls / IBTPs) and a crash block h plus 1-2 continuation blocks. The durable writes of the commit "
+                 "of h are: state batch, journal-prune batch (h>10), chain-index batch, and data+index append of each of the five "
+                 "blockfile tables in order. For every (history, h) ALL prefix combinations of the three concurrent write "
+                 "sequences are enumerated (3x2x11=66 crash images, 44 without pruning), composed from copies of the directory "
+                 "before/after the block and a run whose state store drops the second batch. Oracle per image: node opens; head in "
+                 "{h-1,h}; every block and interchain meta up to head readable; state version == head; raw state dump == the "
+                 "uncrashed node's dump at head; head block's state root == current journal root; block store and index agree; "
+                 "executing the remaining blocks reproduces the uncrashed node's block hashes. Non-trivial = image that is neither "
+                 "all-old nor all-new; distinct = (history, h, image)."),
+        "assumptions": ["a process death leaves a prefix of each sequential write sequence; arbitrary subsets (power loss without fsync) are not enumerated",
+                        "one leveldb batch and one file append are atomic units"],
+        "quick": [T("TestC11", 8, 8, steps=30)],
+        "thorough": [T("TestC11", 16, 400, steps=30, timeout=3000)],
+    },
 }
